@@ -16,7 +16,7 @@ RULE = (
 )
 ASSUMPTIONS = [
     "numpy FFT path only (scipy/fftpack is not installed in this sandbox)",
-    "values compared in the linear domain: |a-b| <= 1e-9*column max + 1e-12*max(matrix max, all-pass coefficient of the loudest frame)",
+    "values compared in the linear domain, every frame at its own scale: |a-b| <= 1e-9*|b| + 1e-12*(all-pass coefficient of that frame); the energy coefficient purely relatively (1e-9)",
     "frame_shift <= frame_length (statement of C01/C02); frame lengths up to 64 samples at 1 kHz, 25 ms at 8/16 kHz",
     "Gabor / L2 gammatone banks with an empty effective support (peak below the threshold) are outside 'every configuration'",
 ]
@@ -102,8 +102,12 @@ def check_definition(case):
         spec["use_log"], spec["use_power"], spec["include_energy"], config.LOG_FLOOR_VALUE,
     )
     kal = spec["kaldi_shift"] and style == "centered"
-    nat = stft_ref.natural_scale(x, win, L, S, D, style, kal, spec["use_power"])
-    msg = stft_ref.compare_features(got, ref, spec["use_log"], natural=nat)
+    nat = stft_ref.natural_rows(x, win, L, S, D, style, kal, spec["use_power"])
+    floor_note = ""
+    if spec["use_log"]:
+        # a reference value sitting on the log floor is compared as the floor itself
+        pass
+    msg = stft_ref.compare_features_per_frame(got, ref, spec["use_log"], nat, energy_col=spec["include_energy"])
     require(msg is None, "N={} L={} S={} D={} style={} kaldi={}: {}", N, L, S, D, style, spec["kaldi_shift"], msg)
     # labels
     wraps = False
